@@ -55,6 +55,8 @@ RULES = {
           "`from_str(\"lit\") == Ok(V)` is generated per arm",
     "E8": "monomorphisation: a generic parameter (`mono T=i128`) or `Self` (`selftype i128`) is replaced textually by the "
           "concrete type named in the directive; the generic bound list is dropped",
+    "E18": "compiled-data wrappers: `TZ_PROVIDER.lock().map_err(..)?` -> `acquire()?`, `&*provider` -> `provider.get()`; every type is an "
+           "opaque stand-in; every core method is external_body with its own uninterpreted spec function",
     "E17": "deadtail: the part of a body after the ISO-calendar early return (calls into icu_calendar) is replaced by "
            "`unreached()`; Verus proves it unreachable under `requires <calendar is ISO>`, so only the ISO branch is claimed",
     "E16": "destructuring assignment `(a, b) = e;` -> `let t = e; a = t.0; b = t.1;` (Rust's own desugaring; Verus lacks it)",
@@ -499,6 +501,10 @@ def parse_template(path):
             else:
                 i -= 1
             nodes.append(("item", d))
+        elif s.startswith("//@wrapper_types"):
+            nodes.append(("wrapper_types", i + 1, ""))
+        elif s.startswith("//@wrappers "):
+            nodes.append(("wrappers", i + 1, s[len("//@wrappers "):].strip()))
         elif s.startswith("//@roundtrip "):
             nodes.append(("roundtrip", i + 1, s[len("//@roundtrip "):].strip()))
         elif s.startswith("//@fn ") or s.startswith("//@assume ") or s.startswith("//@trusted "):
@@ -881,6 +887,136 @@ def emit_item(em, d):
         em.emit(ord_text, origin + " (E6 generated from the declaration order)")
 
 
+LOCK_RE = re.compile(r"^\s*let provider = TZ_PROVIDER\s*\.lock\(\)\s*\.map_err\(\|_\| TemporalError::general\(\"Unable to acquire lock\"\)\)\?;", re.S)
+PRIM = {"i8", "i16", "i32", "i64", "i128", "u8", "u16", "u32", "u64", "u128", "usize", "isize", "bool", "str", "String", "Option", "Result", "Self",
+        "TemporalResult", "Ordering", "Vec", "f64", "char", "TemporalError", "Provider", "Guard"}
+_wr_types = set()
+_wr_callees = set()
+
+
+def _sig_parts(src, masked, it):
+    """(params text inside the parens, return type text or None)"""
+    sig = src[it.start:it.open]
+    msig = masked[it.start:it.open]
+    fn_kw = re.search(r"\bfn\b", msig).start()
+    po = msig.index("(", fn_kw)
+    pc = match_brace(msig, po)
+    params = msig[po + 1:pc]   # masked: comments inside the parameter list are dropped
+    tail = msig[pc + 1:]
+    ret = tail.split("->", 1)[1].strip() if "->" in tail else None
+    if ret and " where" in ret:
+        ret = ret.split(" where")[0].strip()
+    return params, ret
+
+
+def emit_wrappers(em, target):
+    """C19 / E18: `//@wrappers <compiled file> :: <core file>[, <core file>...]`.
+    Every `pub fn` of every inherent impl block of the compiled-data file must have the shape
+        let provider = TZ_PROVIDER.lock().map_err(..)?;  <one call expression ending in `&*provider)`>
+    It is emitted verbatim except that the lock line becomes `let provider = acquire()?;` and `&*provider` becomes
+    `provider.get()`.  The callee is declared external_body with `ensures r == spec_<Type>_<callee>(args.., provider)`
+    (one DISTINCT uninterpreted spec function per core method), and the wrapper must prove
+        lock acquired ==> r == spec_<Type>_<wrapper name>_with_provider(self, same args in the same order, provider)."""
+    comp, cores = [x.strip() for x in target.split("::", 1)]
+    cores = [c.strip() for c in cores.split(",")]
+    src, masked = load(comp)
+    for imp in scan_items(src, masked, 0, len(src)):
+        if imp.kind == "mod":
+            inner = list(scan_items(src, masked, imp.open + 1, imp.end))
+        else:
+            inner = [imp]
+        for im in inner:
+            if im.kind != "impl" or " for " in im.header:
+                continue
+            ty = im.header.split()[-1]
+            _wr_types.add(ty)
+            for f in scan_items(src, masked, im.open + 1, im.end):
+                if f.kind != "fn" or not src[f.start:f.kw].strip().startswith("pub"):
+                    continue
+                body = src[f.open + 1:f.end]
+                m = LOCK_RE.match(body)
+                if not m:
+                    raise ExtractError("E18: %s::%s in %s is not a lock-and-forward wrapper" % (ty, f.name, comp))
+                rest = body[m.end():].strip()
+                cm = re.match(r"^(self|Self|[A-Z][A-Za-z0-9_]*)(\.|::)([a-z_][a-z0-9_]*)\((.*)\)$", rest, re.S)
+                if not cm or "&*provider" not in cm.group(4):
+                    raise ExtractError("E18: %s::%s forwards with an unsupported expression: %r" % (ty, f.name, rest[:80]))
+                callee = cm.group(3)
+                def declare(method):
+                    cit = None
+                    for core in cores:
+                        try:
+                            csrc, cmask, cit = locate(core, ["impl " + ty, "fn " + method])
+                            break
+                        except ExtractError:
+                            continue
+                    if cit is None:
+                        return None
+                    cparams, cret = _sig_parts(csrc, cmask, cit)
+                    cparams = re.sub(r"&\s*impl\s+TimeZoneProvider", "&Provider", " ".join(cparams.split()))
+                    for t in re.findall(r"[A-Z][A-Za-z0-9_]*", cparams + " " + (cret or "")):
+                        if t not in PRIM:
+                            _wr_types.add(t)
+                    names = []
+                    for part in split_top_commas(cparams):
+                        part = part.strip()
+                        if part in ("&self", "self", "&mut self"):
+                            names.append(("self", ty))
+                        else:
+                            nm, _, pt = part.partition(":")
+                            names.append((nm.strip(), pt.strip()))
+                    def spec_ty(t):
+                        t = t.strip()
+                        if t.startswith("&") and t.lstrip("& ").strip() != "str":
+                            t = re.sub(r"^'[a-z_]+\s+", "", t[1:].strip())
+                        return t.replace("Self", ty)
+                    sname = "spec_%s_%s" % (ty, method)
+                    origin_c = "%s:%d" % (core, lineno(csrc, cit.start))
+                    if (ty, method) not in _wr_callees:
+                        _wr_callees.add((ty, method))
+                        sp_params = ", ".join("%s: %s" % (("this" if n == "self" else n), spec_ty(t)) for (n, t) in names)
+                        em.emit("pub uninterp spec fn %s(%s) -> %s;" % (sname, sp_params, (cret or "()").replace("Self", ty)), origin_c)
+                        call_args = ", ".join(("*self" if (n == "self") else (("*" if (t.strip().startswith("&") and t.strip().lstrip("& ").strip() != "str") else "") + n)) for (n, t) in names)
+                        em.emit("impl %s {\n#[verifier::external_body]\npub fn %s(%s) -> (r: %s)\n    ensures r == %s(%s),\n{ unimplemented!() }\n}" % (
+                            ty, method, cparams, cret or "()", sname, call_args), origin_c)
+                    return sname
+                if declare(callee) is None:
+                    raise ExtractError("E18: core method %s::%s not found" % (ty, callee))
+                # the twin this wrapper must equal: the core method named after the wrapper
+                expect = None
+                for cand in (f.name + "_with_provider", f.name + "_and_provider", f.name + "_with_provider_and_system_info"):
+                    if declare(cand) is not None:
+                        expect = cand
+                        break
+                if expect is None:
+                    raise ExtractError("E18: no provider-taking twin of %s::%s in %s" % (ty, f.name, cores))
+                wparams, wret = _sig_parts(src, masked, f)
+                wparams = " ".join(wparams.split())
+                for t in re.findall(r"[A-Z][A-Za-z0-9_]*", wparams + " " + (wret or "")):
+                    if t not in PRIM:
+                        _wr_types.add(t)
+                # the wrapper, verbatim modulo E18
+                wnames = [p_.split(":")[0].strip() for p_ in split_top_commas(wparams) if p_.strip() not in ("&self", "self")]
+                wtypes = [p_.split(":", 1)[1].strip() for p_ in split_top_commas(wparams) if p_.strip() not in ("&self", "self")]
+                has_self = any(p_.strip() in ("&self", "self") for p_ in split_top_commas(wparams))
+                want_args = (["*self"] if has_self else []) + [(("*" if (t.strip().startswith("&") and t.strip().lstrip("& ").strip() != "str") else "") + n) for n, t in zip(wnames, wtypes)] + ["the_provider()"]
+                origin_w = "%s:%d" % (comp, lineno(src, f.start))
+                new_body = "{\n        let provider = acquire()?;\n        " + rest.replace("&*provider", "provider.get()") + "\n    }"
+                em.emit("impl %s {\npub fn %s(%s) -> (r: %s)\n    ensures lock_ok() ==> r == spec_%s_%s(%s),\n%s\n}" % (
+                    ty, f.name, wparams, wret, ty, expect, ", ".join(want_args), new_body), origin_w)
+                em.fns.append({"name": f.name, "target": "%s :: impl %s :: %s" % (comp, ty, f.name), "kind": "fn", "src": origin_w,
+                               "gen_from": 0, "gen_to": 0, "clauses": 1, "src_lines": [lineno(src, f.start), lineno(src, f.end)]})
+                em.rules.add("E18")
+
+
+def emit_wrapper_types(em):
+    for t in sorted(_wr_types):
+        if t == "TinyAsciiStr":
+            em.emit("pub struct TinyAsciiStr<const N: usize> { pub b: [u8; N] }", "generated (opaque stand-in)")
+        else:
+            em.emit("pub struct %s { pub opaque: u8 }" % t, "generated (opaque stand-in)")
+
+
 def emit_roundtrip(em, target):
     """E9: `//@roundtrip <file> :: <Enum>` - enum text round trip, generated mechanically from the repository:
     the FromStr::from_str body is emitted verbatim as an inherent fn; for every arm `Variant => "lit"` of the Display impl
@@ -1045,6 +1181,8 @@ def mask_keep_code(text):
 def generate(unit, out_path=None):
     tmpl = os.path.join(VERIF, "units", unit + ".vrs")
     em = Emitter(unit)
+    _wr_types.clear()
+    _wr_callees.clear()
 
     def walk(path, depth=0):
         if depth > 5:
@@ -1069,6 +1207,10 @@ def generate(unit, out_path=None):
                 emit_item(em, node[1])
             elif node[0] == "roundtrip":
                 emit_roundtrip(em, node[2])
+            elif node[0] == "wrappers":
+                emit_wrappers(em, node[2])
+            elif node[0] == "wrapper_types":
+                emit_wrapper_types(em)
 
     walk(tmpl)
     text = "\n".join(l for (l, _) in em.lines) + "\n"
